@@ -47,6 +47,17 @@ def gen(ctx, label):
         [{"kind": "filler", "sub": ".", "writes": [[0, 3], [1, 2]], "reopen": False}, {"kind": "filler", "sub": "train", "writes": [[1, 3]], "reopen": False},
          {"kind": "filler", "sub": "test", "writes": [[2, 2]], "reopen": True}],
     ]
+    directed += [
+        # sibling directories one of whose names is a string prefix of the other's, at two levels, written in both orders
+        [{"kind": "filler", "sub": "a", "writes": [[0, 3]], "reopen": False}, {"kind": "filler", "sub": "ab", "writes": [[0, 2]], "reopen": False},
+         {"kind": "filler", "sub": "a/y", "writes": [[0, 2]], "reopen": True}, {"kind": "filler", "sub": "a/yz", "writes": [[0, 1]], "reopen": False},
+         {"kind": "filler", "sub": "ab", "writes": [[0, 1]], "reopen": False}],
+        [{"kind": "filler", "sub": "ab", "writes": [[0, 2], [1, 1]], "reopen": False}, {"kind": "filler", "sub": "a", "writes": [[0, 2], [1, 2]], "reopen": True},
+         {"kind": "filler", "sub": ".", "writes": [[0, 1]], "reopen": False}],
+        # a write the serializer rejects after the shape check passed (unsafe dtype), followed by accepted writes into the same shard
+        [{"kind": "filler", "sub": ".", "writes": [[0, 1, "dtype"], [0, 2], [0, 1, "dtype"], [0, 1]], "reopen": False},
+         {"kind": "multi", "writers": [[[0, 1, "dtype"], [0, 2]], [[1, 1, "dtype"]]], "reopen": True}],
+    ]
     for j, h in enumerate(directed):
         cases.insert(0, {"root": str(ctx.scratch / f"{label}_d{j}"), "fmt": ["fb", "npz", "tfrec"][j % 3], "eps": 2, "hist": h,
                          "hashes": [] if j >= 5 and j % 2 == 1 else ["sha256"]})
